@@ -27,7 +27,7 @@ PUSH_RE = r"^babylon::ConcurrentBoundedQueue<.*>::(try_)?push(_n)?$"
 DEPENDS = {
     "C01": "retired tasks travel through a ConcurrentBoundedQueue",
     "C02": "the reclaim thread sleeps in the queue's pop, retire() in its push",
-    "C09": "reclamation is gated by the Epoch's low water mark",
+    "C09": ("reclamation is gated by the Epoch's low water mark", "all"),
 }
 
 def units(tier):
